@@ -68,7 +68,7 @@ def run(mid, tier="quick", props=None):
     assert out.strip() == "", "/repo is not clean: " + out
     rc, out = sh("git -C %s apply -3 %s" % (REPO, os.path.join(d, "patch.diff")))
     if rc != 0:
-        sh("git -C %s checkout -- . && git -C %s reset -q" % (REPO, REPO))
+        sh("git -C %s reset -q --hard HEAD" % REPO)
         print(mid, "patch does not apply:", out[-300:])
         return
     results = {}
@@ -81,7 +81,7 @@ def run(mid, tier="quick", props=None):
             print(mid, p, tier, "exit", rc, "|", (viol[0] if viol else out.strip().splitlines()[-1] if out.strip() else ""))
             # keep the replay of a detected seeded change next to it
     finally:
-        sh("git -C %s reset -q && git -C %s checkout -- ." % (REPO, REPO))
+        sh("git -C %s reset -q --hard HEAD" % REPO)
         rc, out = sh("git -C %s status --porcelain" % REPO)
         assert out.strip() == "", "/repo not clean after undo: " + out
     meta.setdefault("detection", {}).update(results)
